@@ -425,7 +425,11 @@ def printable(s, lo, hi):
 
 TEMPLATES = {"plain": ("", ""), "entity": ("&", ";"), "field": ("{", "}"),
              "pct": ("%3", "b%3E"),          # percent-escape of markup: "%3" + "C" + "b%3E" is <b> once percent-decoded
-             "pct2": ("%", "Cimg%20src=x%3E")}
+             "pct2": ("%", "Cimg%20src=x%3E"),
+             # size: many markup characters / a long run of plain text before the symbolic text (a symbolic character
+             # BEFORE a long concrete run shifts every later position: > 1400 paths, not exhausted in 300 s)
+             "many": ("<&>\"'" * 13, ""),
+             "long": ("x" * 300 + "<i>", "")}
 JSON = "application/json"
 
 
@@ -505,6 +509,8 @@ def html_plan(tier):
             ("400", "qs", "plain", 1, 60), ("400", "path", "plain", 1, 60), ("400", "host", "plain", 1, 60),
             ("400after", "qs", "plain", 1, 60), ("400after", "host", "plain", 1, 60),
             ("critical", "qs", "plain", 1, 60), ("critical", "host", "plain", 1, 60),
+            ("critical", "path", "many", 1, 200), ("404", "qs", "many", 1, 300), ("404", "host", "long", 1, 300),
+            ("critical", "path", "long", 1, 200),
         ]
     plan = [("404", "qs", "plain", 3, 900)]
     for kind in ("404", "405", "500"):
@@ -522,6 +528,9 @@ def html_plan(tier):
         ("400after", "path", "plain", 1, 100),
         ("400", "qs", "plain", 2, 100), ("400", "path", "plain", 2, 100), ("400", "host", "plain", 2, 100),
     ]
+    for kind, pos in (("critical", "path"), ("404", "qs"), ("404", "host"), ("405", "qs"), ("500", "qs"), ("500text", "qs"),
+                      ("400", "qs"), ("400after", "qs"), ("500gen", "qs")):
+        plan += [(kind, pos, "many", 1, 600), (kind, pos, "long", 1, 600)]
     return plan
 
 
